@@ -74,6 +74,10 @@ def solve_and_judge(case, which, in_situ=True):
     for opt, on in case.get('build_opts', {}).items():
         if on:
             rec.count('models.judged.with_' + opt)
+    if any(z['gov'].get('asset_markets_in') and z['gov'].get('deposits') for z in spec['zones']):
+        rec.count('models.judged.with_deposit_market_away_from_its_issuer')
+    if spec['imports'] and case.get('build_opts', {}).get('interleave_model'):
+        rec.count('models.judged.with_cross_zone_supplier_and_interleaved_models')
     rec.count('exact.variables', len(E.names))
     rec.count('exact.frozen_equations', len(E.frozen))
     nontrivial = J.max_flow > Fraction(1, 1000)
@@ -93,14 +97,20 @@ def gen_case(rng, idx, tier, emphasis=None):
             spec = M.gen_spec(rng, n_zones=nz, ext=True)
     elif r in (0, 1):
         spec = M.gen_spec(rng, n_zones=1)
-    elif r in (2, 3, 4):
+    elif r == 2:
+        # two zones trading with each other, built while unrelated Model() objects come and go
+        spec = M.ensure_cross_import(rng, M.gen_spec(rng, n_zones=2, ext=True))
+    elif r in (3, 4):
         spec = M.gen_spec(rng, n_zones=2)
     elif r == 5:
         spec = M.gen_spec(rng, n_zones=3, maxtime=4)
+    elif r == 6:
+        # a federation whose asset markets are declared in a region, the issuer in the central country
+        spec = M.gen_federation_with_region_asset_markets(rng)
     else:
         spec = M.gen_spec(rng)
     return {'kind': 'model', 'spec': spec, 'ext_first': rng.random() < 0.7,
-            'build_opts': {'query_zone': rng.random() < 0.3, 'interleave_model': idx % 2 == 0 or rng.random() < 0.2,
+            'build_opts': {'query_zone': rng.random() < 0.3, 'interleave_model': idx % 2 == 0 or rng.random() < 0.2,   # r == 2 is even
                            'region_default_currency': rng.random() < 0.4}}
 
 
@@ -123,7 +133,8 @@ class C01(object):
                    'exact re-solution pins genuinely non-affine equations (Tobin weight) to the solver value']
     required_counters = ('models.judged', 'money_created_or_destroyed_in_zone.judged',
                          'sector_ledger_not_sum_of_declared_flows.judged', 'insitu.addcashflow.post_evaluated',
-                         'models.judged.with_interleave_model')
+                         'models.judged.with_interleave_model', 'models.judged.with_deposit_market_away_from_its_issuer',
+                         'models.judged.with_cross_zone_supplier_and_interleaved_models')
     which = ('zone', 'ledger')
 
     def n_cases(self, tier):
